@@ -50,10 +50,10 @@ Ltac rdx :=
     rotate_into rotate_assign rescale_into rescale_assign extract_pt unary_into to_znx_check
     apply_params apply_params_asserting mul_ct_params mul_pt_params ensure_plaintext_alignment
     cst_at_k cst_meta_of_prec cst_to_znx ptz_alloc compact
-    s_unary s_align s_f64 s_mul_ct s_mul_pt s_acc
+    s_unary s_align s_f64 s_mul_ct s_mul_pt s_acc s_compact cpt
     offset_unary offset_binary offu offb ssub eff maxk
     bind ret fail panic get set_meta set_lb set_ld shift csub usub uadd passert when
-    admissible known_panic k3_product_of_noncompact compact_ct unary_into_late
+    admissible known_panic compact_ct
     fst snd cm csize ld lb pm pmaxk pb2k km klen knone];
   cbv beta iota zeta.
 
@@ -117,22 +117,22 @@ Qed.
 (* ------------------------------------------------------------------ consequences for one call *)
 Lemma no_panic (chk : bool) (B : Z) (o : op) (d a b : ct) :
   1 <= B -> wf_op B o -> good B d -> good B a -> good B b ->
-  admissible B o d a -> ~ known_panic B o d a b ->
+  admissible B o d a ->
   meta_step chk B o d a b <> Panic.
 Proof.
-  intros HB Hwf Hd Ha Hb Hadm Hk Hp.
+  intros HB Hwf Hd Ha Hb Hadm Hp.
   pose proof (step_cases chk B o d a b HB Hwf Hd Ha Hb) as H.
-  unfold step_verdict in H. rewrite Hp in H. exact (Hk (H Hadm)).
+  unfold step_verdict in H. rewrite Hp in H. exact (H Hadm).
 Qed.
 
 Lemma error_iff (chk : bool) (B : Z) (o : op) (d a b : ct) :
   1 <= B -> wf_op B o -> good B d -> good B a -> good B b ->
-  admissible B o d a -> ~ known_panic B o d a b ->
+  admissible B o d a ->
   outcome_matches (meta_step chk B o d a b) (spec_step B o d a b).
 Proof.
-  intros HB Hwf Hd Ha Hb Hadm Hk.
+  intros HB Hwf Hd Ha Hb Hadm.
   pose proof (step_cases chk B o d a b HB Hwf Hd Ha Hb) as H.
-  pose proof (no_panic chk B o d a b HB Hwf Hd Ha Hb Hadm Hk) as Hn.
+  pose proof (no_panic chk B o d a b HB Hwf Hd Ha Hb Hadm) as Hn.
   unfold step_verdict in H. unfold outcome_matches.
   destruct (meta_step chk B o d a b) as [m sz sh | e m | ]; [ | | congruence ].
   - destruct H as [H _]. rewrite H. split; reflexivity.
@@ -234,24 +234,13 @@ Qed.
 (* ------------------------------------------------------------------ where the faithful model violates the property *)
 Definition c8 (l b : Z) : ct := Ct (Meta l b) 8.
 
-(* a product of a ciphertext that is not stored compactly panics (the un-compacted result of a product, or a rescaled
-   ciphertext): both profiles *)
-Lemma product_noncompact_panics_refuted :
-  exists (B : Z) (d a : ct),
-    1 <= B /\ good B d /\ good B a /\ admissible B OSquareInto d a /\
-    meta_step true B OSquareInto d a a = Panic /\ meta_step false B OSquareInto d a a = Panic.
-Proof.
-  exists 19, (Ct (Meta 0 0) 8), (c8 30 92).
-  unfold good, inv, admissible, eff, maxk, two62, c8; cbn. repeat split; try lia; reflexivity.
-Qed.
-
 (* ------------------------------------------------------------------ the hypotheses are satisfiable; regression witnesses *)
 Lemma example_step :
   let B := 19 in let d := Ct (Meta 0 0) 6 in let a := c8 30 122 in
-  1 <= B /\ wf_op B ONegInto /\ good B d /\ good B a /\ admissible B ONegInto d a /\ ~ known_panic B ONegInto d a a /\
+  1 <= B /\ wf_op B ONegInto /\ good B d /\ good B a /\ admissible B ONegInto d a /\
   meta_step true B ONegInto d a a = Done (Meta 30 84) 6 [38].
 Proof.
-  unfold good, inv, wf_op, admissible, known_panic, k3_product_of_noncompact, eff, maxk, two62, c8; cbn.
+  unfold good, inv, wf_op, admissible, eff, maxk, two62, c8; cbn.
   repeat split; try lia; try reflexivity; tauto.
 Qed.
 
@@ -261,7 +250,8 @@ Lemma example_repaired :
   meta_step true 19 (OCstRnxAssign (Meta 50 0) false) (Ct (Meta 30 8) 2) (c8 0 0) (c8 0 0) = Fail EAlign (Meta 30 8) /\
   meta_step true 19 ONegInto (Ct (Meta 0 0) 1) (c8 30 122) (c8 30 122) = Fail ECapacity (Meta 0 0) /\
   meta_step false 19 (ODivPow2Into (two64 - 1)) (Ct (Meta 0 0) 7) (c8 30 122) (c8 30 122) = Fail ECapacity (Meta 0 0) /\
-  meta_step false 19 (OSetMeta (Meta (two64 - 1) 2)) (Ct (Meta 0 0) 7) (c8 0 0) (c8 0 0) = Fail EShrink (Meta 0 0).
+  meta_step false 19 (OSetMeta (Meta (two64 - 1) 2)) (Ct (Meta 0 0) 7) (c8 0 0) (c8 0 0) = Fail EShrink (Meta 0 0) /\
+  meta_step true 19 OSquareInto (Ct (Meta 0 0) 8) (c8 30 92) (c8 30 92) = Fail ENotCompact (Meta 0 0).
 Proof. repeat split; reflexivity. Qed.
 
 Lemma example_program :
